@@ -106,7 +106,11 @@ def run_norm(case, drv):
         viol = viol or {'signature': 'norm:scale-dependent', 'what': f'estimate depends on the length of the start vector: {est:.8g} vs {float(val2):.8g} for 8*v ({cfg})'}
     if case['budget'] >= 64 and case['tol'] == 'zero' and n <= 4:
         gap = torch.linalg.svdvals(A)
-        if n == 1 or float(gap[1] / gap[0]) < 0.8:
+        # the convergence clause is for *generic* start vectors: a small integer vector can be exactly orthogonal to the dominant right
+        # singular vector (e.g. (3,-3) for [[3,2],[2,3]]); require a component along it
+        vdom = torch.linalg.svd(A).Vh[0].conj()
+        generic = float(torch.vdot(vdom, v0.to(vdom.dtype)).abs() / torch.linalg.vector_norm(v0)) > 0.05
+        if generic and (n == 1 or float(gap[1] / gap[0]) < 0.8):
             if abs(est - smax) > 1e-3 * smax:
                 viol = viol or {'signature': 'norm:no-convergence', 'what': f'after 64 iterations estimate {est:.8g} != sigma_max {smax:.8g} ({cfg})'}
     # ---- correspondence with the Lean model (double precision run of the same recurrence)
